@@ -863,7 +863,7 @@ class Gen:
         return L.scan("plus", items=items)
 
 
-def make_case(rng, tid, *, groups=("core",), AND=None, max_rows=8, modes=False, ragged_collect=False):
+def make_case(rng, tid, *, groups=("core",), AND=None, max_rows=8, modes=False, ragged_collect=False, nomatch_p=0.0):
     # control functions are about what happens around blank records: more of them
     fs = L.FileSpec(rng, max_rows=max_rows, blank_p=0.22 if "control" in groups else 0.12)
     if AND is None:
@@ -896,6 +896,10 @@ def make_case(rng, tid, *, groups=("core",), AND=None, max_rows=8, modes=False, 
         cfg["keepUnmatched"] = rng.random() < 0.6
         cfg["noRun"] = rng.random() < 0.1
         cfg["noDefaultPrint"] = rng.random() < 0.5
+    if nomatch_p and random.Random(f"nomatch|{tid}|{len(fs.records)}|{len(prog['comps'])}").random() < nomatch_p:
+        # return-mode: no-matches: the lines handed to the caller are the ones that do NOT match, so the number of lines returned and
+        # the match count part company (a draw of its own: the other streams stay as they were)
+        cfg["noMatches"] = True
     case = {"tid": tid, "prog": prog, "records": fs.records, "cfg": cfg}
     if modes and rng.random() < 0.6:
         # free comment text of arbitrary characters (all but ~ [ ] $, and no colon: a colon after a word would make a field) and
